@@ -5,6 +5,7 @@ import scen_common
 PID = "C09"
 PROP_V = ["Props/Properties_C09.v"]
 GEN_MODULES = ["Consts", "Sites"]
+FLOW_FILES = ['note.c']
 REPLAY_HINT = "VRT_SEED=<seed> VRT_FAMILY=<f> _work/h/note_mix | note_f8 | note_f9"
 PARTIAL = []
 
